@@ -2,3 +2,4 @@ pub mod common;
 pub mod wincon_sys;
 pub mod parser_sys;
 pub mod strip_sys;
+pub mod fault_sys;
